@@ -706,6 +706,58 @@ func scenarioC13(r *Run) {
 			s.history = append(s.history, "close")
 			r.RunFor(2 * time.Second)
 			r.Count("sessions_closed")
+		case op == 4 && s.state == "open" && s.port != 0 && len(live()) >= 2 && c.Chance(1, 2, "reordered-pipelining"):
+			// The session's client pipelines two data packets and the path reorders them: packet #n+1 arrives,
+			// then another session moves data, then packet #n. (The harness sends the two packets itself, from the
+			// session's own address, with the true continuation of the client's stream; the session's own client
+			// is out of step afterwards and is silenced.) The server side must read exactly the client's bytes.
+			var other *c13sess
+			for _, o := range live() {
+				if o != s {
+					other = o
+				}
+			}
+			ops = append(ops, fmt.Sprintf("reordered%d", s.idx))
+			nextOut, nextIn := s.dc.SimNextSeq()
+			sent, _, _, _, _, _ := s.pc.Snapshot()
+			_, had, _, _, _, _ := s.ps.Snapshot()
+			a, b := 3+c.Pick(20, "first-packet-bytes"), 30+c.Pick(60, "second-packet-bytes")
+			p0, p1 := make([]byte, a), make([]byte, b)
+			prfFill(s.pc.TxKey, sent, p0)
+			prfFill(s.pc.TxKey, sent+int64(a), p1)
+			mk := func(seq uint16, data []byte) []byte {
+				req := &commands.PacketRequest{UserId: s.uid, LastAckedSeqNo: nextIn - 1, Packet: &dnsutil.Packet{SeqNo: seq, Data: data}}
+				msg, err := s.dc.Serializer.EncodeDnsRequest(req)
+				if err != nil {
+					return nil
+				}
+				out, _ := msg.Pack()
+				return out
+			}
+			from := &net.UDPAddr{IP: net.ParseIP(s.ip), Port: s.port}
+			to := &net.UDPAddr{IP: net.ParseIP(ServerIP), Port: 5353}
+			d1, d0 := mk(nextOut+1, p1), mk(nextOut, p0)
+			if d1 == nil || d0 == nil {
+				break
+			}
+			r.Net.Inject("udp", from, to, d1)
+			r.RunFor(time.Second)
+			if !transfer([]*c13sess{other}, "between two reordered packets of session "+fmt.Sprint(s.idx)) {
+				return
+			}
+			r.Net.Inject("udp", from, to, d0)
+			r.RunFor(3 * time.Second)
+			if r.Failed() {
+				return
+			}
+			if _, got, _, _, _, _ := s.ps.Snapshot(); got != had+int64(a+b) {
+				r.FailSig("reordered-packets-not-delivered", sigHist(), "session %d: two pipelined packets (%d and %d bytes) arrived in reverse order; the server side read %d of their %d bytes", s.idx, a, b, got-had, a+b)
+				return
+			}
+			silenced[s.ip] = true
+			s.state = "silent"
+			s.history = append(s.history, "silent")
+			r.Count("reordered_pipelined_packets")
 		case op == 4 && s.state == "open":
 			ops = append(ops, fmt.Sprintf("silent%d", s.idx))
 			silenced[s.ip] = true
